@@ -36,7 +36,8 @@ Readers == 1 .. 8
 
 \* 200 answers carrying the right bytes
 GoodKinds(hint) == IF hint THEN {"ok", "chunked_ok"} ELSE {"ok"}
-Bad200   == {"flip", "short", "long", "cl_short", "cl_long", "chunked_flip", "chunked_short", "chunked_long"}
+Bad200   == {"flip", "short", "long", "cl_short", "cl_long", "chunked_flip", "chunked_short", "chunked_long",
+             "chunked_flip_err", "chunked_long_err", "chunked_ok_err"}   \* ..._err: the body ends with a transport error
 Non200   == {"s404", "s403", "s408", "s429", "s500", "s502", "s503", "connerr"}
 Kinds    == {"ok", "chunked_ok"} \cup Bad200 \cup Non200
 
